@@ -25,8 +25,13 @@ def gen_design(r, ncells=None, nlibs=None):
             # the original name differs from the (usually sibling's) previous identifier only in letter case: legal, since
             # identifiers are case-insensitive but names are not - the writer had to rename one of  ack / Ack
             return (i, prev.capitalize() if prev.capitalize() != prev else prev.upper())
+        if r.random() < 0.07:
+            # names that start with a digit or an underscore: the identifier carries the '&' escape (letters of either case)
+            o = r.choice(["_%s", "9%s", "_9%s", "0_%s"]) % i.capitalize()
+            last[prefix] = "&" + o
+            return ("&" + o, o)
         if r.random() < weird:
-            return (i, r.choice(["%s[x]", "%s.orig", "\\%s ", "%s/sub", "%s name", "$%s", "%s_o", "o_%s", "n_%s"]) % i)
+            return (i, r.choice(["%s 50%%", "%s%%pct", "%s[x]", "%s.orig", "\\%s ", "%s/sub", "%s name", "$%s", "%s_o", "o_%s", "n_%s"]) % i)
         return (i, None)
     nlibs = nlibs or r.choice([1, 2, 2, 3])
     libs = [{"name": namedef("lib", 0.2), "cells": [], "external": (k == 0 and r.random() < 0.2)} for k in range(nlibs)]
@@ -70,6 +75,8 @@ def gen_design(r, ncells=None, nlibs=None):
             # endpoints
             eps = [(None, p["name"][0], b) for p in cell["ports"] for b in range(p["width"])]
             for ins in cell["insts"]:
+                if r.random() < 0.2:
+                    continue        # a spare instance: declared, connected to nothing
                 eps += [(ins["name"][0], p["name"][0], b) for p in ins["_cell"]["ports"] for b in range(p["width"])]
             r.shuffle(eps)
             nets = []
